@@ -71,6 +71,20 @@ def sub_case(name, sc, seed, maxc, exclude, variant):
     inner = entry.make(seed, np.nan, (0, 1))
     spy = Spy(inner)
     wr = SubSamplingWrapper(inner, max_candidates=maxc, exclude_non_subsample=exclude, random_state=seed)
+    swapped = False
+    if seed % 3 == 0:
+        # one wrapper object whose wrapped strategy is exchanged through set_params (the wrapper reads its
+        # query_strategy parameter at call time): built around RandomSampling, its query signature inspected once,
+        # then re-configured with the strategy under test - it must behave like a wrapper built around that strategy
+        import inspect
+
+        from skactiveml.pool import RandomSampling
+
+        wr = SubSamplingWrapper(RandomSampling(random_state=seed), max_candidates=maxc, exclude_non_subsample=exclude,
+                                random_state=seed)
+        inspect.signature(wr.query)
+        wr.set_params(query_strategy=inner)
+        swapped = True
     kw = zoo.model_kwargs(entry, np.nan, (0, 1), seed=seed, variant=variant)
     rows_mode = isinstance(cand, np.ndarray) and cand.ndim == 2
     n = len(cand) if rows_mode else len(X)
@@ -87,6 +101,7 @@ def sub_case(name, sc, seed, maxc, exclude, variant):
             "n": n, "cands": cands, "frac": frac, "maxc": [mc.numerator, mc.denominator],
             "concrete": {"wrapper": "SubSamplingWrapper", "inner": name, "scenario": sc, "seed": seed,
                          "max_candidates": maxc, "exclude_non_subsample": exclude, "variant": variant,
+                         "wrapped_strategy_exchanged_by_set_params": swapped,
                          "X": X.tolist(), "y": ["nan" if v != v else v for v in y.tolist()],
                          "candidates": cand.tolist() if isinstance(cand, np.ndarray) else cand,
                          "batch_size": conc["batch_size"]}}
